@@ -38,15 +38,16 @@ class Attenuated(Job):
     max_paths = 20000
     max_seconds = 1500
 
-    def __init__(self, n, check, period, minmode=None, step=None, canary=None, steps=None):
+    def __init__(self, n, check, period, minmode=None, step=None, canary=None, steps=None, frac=False):
         self.n, self.check, self.period, self.minmode, self.step, self.canary = n, check, period, minmode, step, canary
+        self.frac = frac            # time stamps carry a sub-second part
         self.steps = steps          # concrete irregular steps (n-1 of them): the sampling step is their median
         if steps is not None:
             import statistics
             self.step = int(statistics.median(steps))
             step = f"irregular{tuple(steps)}"
         self.name = (f"attenuated n={n} check={check} period={'y' if period else 'n'} min={minmode}"
-                     + (f" step={step}s" if step else "") + (f" CANARY={canary}" if canary else ""))
+                     + (f" step={step}s" if step else "") + (" sub-second stamps" if frac else "") + (f" CANARY={canary}" if canary else ""))
         if canary:
             self.expect_canary_sat = True
             self.validate_witnesses = False
@@ -72,7 +73,7 @@ class Attenuated(Job):
             V.assume(t0.s + n * self.step < cal.t_hi())
             S.t = [STime(t0.s + i * self.step) for i in range(n)]
         else:
-            S.t = V.times_increasing("t", n, max_step=2 ** 12)
+            S.t = V.times_increasing("t", n, max_step=2 ** 12, frac=self.frac)
         S.st = V.float("st", lo=0, hi=4096)
         S.ft = V.float("ft", lo=0, hi=4096)
         S.P = V.int("P", 1, 2 ** 14) if self.period else None
@@ -125,14 +126,20 @@ class Attenuated(Job):
             need = S.min_period.v / self.step          # min_period divided by the (regular) sampling step
         else:
             need = iv(1)
+        if self.frac:
+            tv = [z3.ToReal(t.s) + (t.f if getattr(t, "f", None) is not None else 0) for t in S.t]
+            P = z3.ToReal(S.P.v)
+        else:
+            tv = [t.s for t in S.t]
+            P = S.P.v
         for i in range(n):
             alts = []
             for a in range(0, i + 1):
                 # window = rows a..i
-                incond = (S.t[i].s - S.P.v < S.t[a].s) if self.canary != "closed_left" else (S.t[i].s - S.P.v <= S.t[a].s)
-                starts = mk_and(incond, TRUE if a == 0 else mk_not((S.t[i].s - S.P.v < S.t[a - 1].s)
+                incond = (tv[i] - P < tv[a]) if self.canary != "closed_left" else (tv[i] - P <= tv[a])
+                starts = mk_and(incond, TRUE if a == 0 else mk_not((tv[i] - P < tv[a - 1])
                                                                    if self.canary != "closed_left" else
-                                                                   (S.t[i].s - S.P.v <= S.t[a - 1].s)))
+                                                                   (tv[i] - P <= tv[a - 1])))
                 rows = list(range(a, i + 1))
                 for pattern in itertools.product((False, True), repeat=len(rows)):
                     if not pattern[-1]:
@@ -178,6 +185,9 @@ def jobs(tier):
         out.append(Attenuated(4, check, True, "period", steps=(10, 10, 50)))
         if tier == "thorough":
             out.append(Attenuated(4, check, True, "period", steps=(5, 60, 5)))
+    # sub-second stamps: the window (t - P, t] is decided on the exact stamps, not on floored seconds
+    out.append(Attenuated(3, "range", True, frac=True))
+    out.append(Attenuated(2 if tier == "quick" else 3, "std", True, "obs", frac=True))
     out.append(Attenuated(2, "default", False))
     out.append(Attenuated(2, "variance", False))
     out.append(Attenuated(2, "Range", True))
@@ -192,7 +202,7 @@ OUTSIDE = ["series longer than the bound (std: n<=3 quick / 4 thorough)", "sprea
            "range over a time window containing a missing value: UNKNOWN or max-min both accepted", "values beyond +-1024"]
 ASSUMPTIONS = ["numpy.ma and pandas Series.rolling('<P>s', min_periods).std()/.apply(np.ptp, raw=True) environment model validated per "
                "path against pandas 3.0.5 (window (t-P,t], min_periods counts non-NaN observations, ddof=1)",
-               "thresholds >= 0, test_period >= 1 whole seconds, strictly increasing whole-second times"]
+               "thresholds >= 0, test_period >= 1 whole seconds, strictly increasing times (whole seconds; sub-second stamps in dedicated jobs)"]
 
 
 def bounds(tier):
